@@ -5,8 +5,12 @@
  * dns_helpers.c.  Stand-ins (this file): the sixteen cb_* filter functions named in rcpt_cbs[] (each returns the
  * outcome the case gives for it), the network writers (capture), logging, tarpit.
  *
- * case:   cc <outcomes> <user> <domain> <global> <key>
- *   outcomes  16 bytes indexed by the canonical filter id (alphabetical, see cb_names); byte = enum filter_result + 1
+ * case:   cc <outcomes> <user> <domain> <global> <key> [<session>]
+ *   outcomes  16 bytes indexed by the canonical filter id (alphabetical, see cb_names); byte = enum filter_result + 1,
+ *             or 0x80 for boolean, smtpbugs, spf, usersize: call the real filter (filters_real2.c)
+ *   session   (default all zero) byte 0: xmitstat.spf; byte 1: bit 0 TLS, bit 1 authenticated (authname), bit 2 ESMTP,
+ *             bit 3 apostrophe in the MAIL FROM local part, bit 4 empty MAIL FROM; byte 2: blanks after "RCPT TO:";
+ *             bytes 3-4: announced SIZE (xmitstat.thisbytes, big endian)
  *   user      mode byte (0: no user directory, the user exists by dom/.qmail-user; 1: directory without filterconf;
  *             2: directory with filterconf) followed by the bytes of the filterconf file
  *   domain    mode byte (1: no filterconf, 2: filterconf) + file bytes          -> dom/filterconf
@@ -103,6 +107,12 @@ static unsigned char trace[64]; static int n_trace;
 static const char *probe_key;
 static long p_val[2]; static int p_type[2], p_errno[2], probed;
 
+enum filter_result real_cb_boolean(const struct userconf *, const char **, enum config_domain *);
+enum filter_result real_cb_smtpbugs(const struct userconf *, const char **, enum config_domain *);
+enum filter_result real_cb_usersize(const struct userconf *, const char **, enum config_domain *);
+enum filter_result real_cb_spf(const struct userconf *, const char **, enum config_domain *);
+#define REAL 0x80
+
 static enum filter_result standin(int id, const struct userconf *ds, const char **logmsg, enum config_domain *t)
 {
 	if (n_trace == 0 && probe_key) {
@@ -116,6 +126,15 @@ static enum filter_result standin(int id, const struct userconf *ds, const char 
 	if (n_trace < (int)sizeof(trace)) trace[n_trace++] = id;
 	*logmsg = cb_names[id];
 	*t = CONFIG_USER;
+	if (outcomes[id] == REAL) {
+		switch (id) {
+		case 2: return real_cb_boolean(ds, logmsg, t);
+		case 11: return real_cb_smtpbugs(ds, logmsg, t);
+		case 13: return real_cb_spf(ds, logmsg, t);
+		case 14: return real_cb_usersize(ds, logmsg, t);
+		default: abort();
+		}
+	}
 	enum filter_result r = (enum filter_result)((int)outcomes[id] - 1);
 	if (r == FILTER_DENIED_WITH_MESSAGE)
 		netnwrite("554 5.7.1 rejected by filter stand-in\r\n", 39);
@@ -190,11 +209,18 @@ static void out_setting(const char *tag, int k)
 
 static void run_case(int nf, struct field *f)
 {
-	if (nf != 6 || f[0].len != 1 || f[0].p[0] != 0xcc || f[1].len != NFILT || f[2].len < 1 || f[3].len < 1 || f[4].len < 1
+	if ((nf != 6 && nf != 7) || f[0].len != 1 || f[0].p[0] != 0xcc || f[1].len != NFILT || f[2].len < 1 || f[3].len < 1 || f[4].len < 1
 			|| sizeof(long) != 8) {
 		out_str("BADCASE");
 		return;
 	}
+	unsigned char sess[5] = { 0, 0, 0, 0, 0 };
+	if (nf == 7) {
+		if (f[6].len != 5 || f[6].p[2] > 8) { out_str("BADCASE"); return; }
+		memcpy(sess, f[6].p, 5);
+	}
+	for (int i = 0; i < NFILT; i++)
+		if (f[1].p[i] > 6 && !(f[1].p[i] == REAL && (i == 2 || i == 11 || i == 13 || i == 14))) { out_str("BADCASE"); return; }
 	snprintf(base, sizeof(base), "/tmp/qv-c12-%ld", (long)getpid());
 	mkdir(base, 0755);
 	if (chdir(base) != 0) abort();
@@ -232,12 +258,22 @@ static void run_case(int nf, struct field *f)
 	rcpthsize = sizeof(rh) - 1;
 	rcpthosts = malloc(rcpthsize + 1); memcpy(rcpthosts, rh, rcpthsize + 1);
 	memset(&xmitstat, 0, sizeof(xmitstat));
-	xmitstat.mailfrom.s = "sender@example.net"; xmitstat.mailfrom.len = strlen(xmitstat.mailfrom.s);
+	xmitstat.mailfrom.s = (sess[1] & 8) ? "o'brien@example.net" : "sender@example.net";
+	xmitstat.mailfrom.len = strlen(xmitstat.mailfrom.s);
+	if (sess[1] & 16) { xmitstat.mailfrom.s = NULL; xmitstat.mailfrom.len = 0; }
+	xmitstat.helostr.s = "client.example.net"; xmitstat.helostr.len = strlen(xmitstat.helostr.s);	/* no reverse lookup */
+	xmitstat.spf = sess[0] & 15;
+	xmitstat.ssl = (sess[1] & 1) ? (SSL *)&xmitstat : NULL;	/* only ever compared with NULL */
+	if (sess[1] & 2) { xmitstat.authname.s = "user"; xmitstat.authname.len = 4; }
+	xmitstat.esmtp = (sess[1] & 4) ? 1 : 0;
+	xmitstat.thisbytes = ((size_t)sess[3] << 8) | sess[4];
 	strcpy(xmitstat.remoteip, "::ffff:192.0.2.1"); strcpy(xmitstat.localip, "192.0.2.2");
 	rcptcount = 0; goodrcpt = 0; thisrecip = NULL;
 	TAILQ_INIT(&head);
-	static const char cmd[] = "RCPT TO:<user@example.org>";
-	linein.s = malloc(sizeof(cmd)); memcpy(linein.s, cmd, sizeof(cmd)); linein.len = sizeof(cmd) - 1;
+	char cmd[64];
+	snprintf(cmd, sizeof(cmd), "RCPT TO:%.*s<user@example.org>", (int)sess[2], "        ");
+	linein.len = strlen(cmd);
+	linein.s = malloc(linein.len + 1); memcpy(linein.s, cmd, linein.len + 1);
 
 	errno = 0;
 	int rc = smtp_rcpt();
